@@ -35,7 +35,7 @@ TRUSTED = [
 ASSUMPTIONS = [
     "cofactor one (hcof: the curve has exactly n points) for the E2E statements about ARBITRARY keys; not proved for "
     "secp256k1 (no point count). Keys built from G need no assumption",
-    "p = 3 (mod 4) on every E2E theorem (Lawful bundles lift_x)",
+    "p = 3 (mod 4) on the E2E recovery theorems only (lift_x); sign/verify E2E theorems hold on every odd prime field",
     "primality of n for curves other than secp256k1 (secp256k1: proved, Btc.E2E.secp256k1_p_prime/_n_prime)",
     "unforgeability is not a theorem",
 ]
